@@ -3,5 +3,6 @@ import MpirProofs.Lemmas.Kernels
 import MpirProofs.Props.C03
 import MpirProofs.Lemmas.MpzKernel
 import MpirProofs.Lemmas.Mpz
+import MpirProofs.Lemmas.MpzMul
 import MpirProofs.Props.C03_mpz
 import MpirProofs.Props.C01_mpz
